@@ -119,6 +119,25 @@ func replayConcFile(e *Env, rf *replay.File, path string) (int, error) {
 		return 2, err
 	}
 	base := strings.TrimSuffix(rf.Variant, "-race")
+	if rf.Violation.Class == "fatal-runtime-error" {
+		bin, err := e.Build(concVariant(rf.Variant, overlay))
+		if err != nil {
+			return 2, err
+		}
+		// the whole job prefix is re-executed from the seed (the tape may be absent)
+		from := rf.Idx - rf.Prefix
+		j := e.concJob(bin, rf.Variant, from, rf.Prefix+1, sites, strings.HasSuffix(rf.Variant, "-race"), "replay")
+		if j.Procs = rf.Procs; j.Procs == 0 {
+			j.Procs = 1
+		}
+		e.runJob(j)
+		if msg := fatalInLibrary(j.Stderr); msg != "" {
+			fmt.Printf("VIOLATION property=%s replay=%s\n  class=fatal-runtime-error key=%s\n  %s\n", rf.Property, path, msg, strings.ReplaceAll(firstLines(j.Stderr, 25), "\n", "\n  "))
+			return 1, nil
+		}
+		fmt.Printf("replay of %s: the process was not aborted by the Go runtime on the current tree\n", path)
+		return 0, nil
+	}
 	plain, err := e.Build(concVariant(base, overlay))
 	if err != nil {
 		return 2, err
